@@ -581,7 +581,8 @@ impl<'a> ParserState<'a> {
             let token = self.expect_token(context, A2lTokenType::String)?;
             let mut text = self.get_token_text(token);
 
-            if text.starts_with('\"') {
+            // the text of an A2ML block (even a misplaced one) is also a string token, but has no quotes
+            if text.len() >= 2 && text.starts_with('\"') {
                 text = &text[1..text.len() - 1];
             }
 
